@@ -203,6 +203,10 @@ void h_search(void)
   __CPROVER_assume(OP == 1 || MODE != 2);           /* writePending never runs during the handshake */
   for (unsigned i = 0; i < 8; i++) IORA_ENV_SCRIPT[i] = SCR[i];
   IORA_ENV_i = 0; IORA_SQ_i = 0; IORA_TRUE = 1;
+  /* statics are nondeterministic (--nondet-static): the concrete scenario starts every ghost at 0 */
+  G_close_calls = 0; G_close_sid = 0; G_close_why = 0; G_send_calls = 0; G_sslw_calls = 0; G_ssl_last_ret = 0; G_ssl_last_err = 0; G_rd_last = 0; G_errno = 0;
+  G_ep_fd = 0; G_ep_events = 0; G_ep_op = 0; G_ep_epfd = 0; G_ep_mods = 0; G_ep_dels = 0; G_seq = 0; G_ep_seq = 0; G_env_kind = 0; G_ssl_last_op = 0; G_ssl_fatal = 0;
+  for (unsigned i = 0; i < 8; i++) IORA_SQ_B[i] = 0;
   TcpEngine E = {0}; TcpEngine *self = &E;
   Session *s = malloc(sizeof(Session)); __CPROVER_assume(s != NULL);
   Session z = {0}; *s = z;
